@@ -8,6 +8,7 @@ import AcraModel.CrossClient.Tls
 import AcraModel.CrossClient.TlsIdentity
 import AcraModel.CrossClient.TlsIdentityInj
 import AcraModel.CrossClient.TlsServer
+import AcraModel.CrossClient.TlsConn
 import AcraModel.CrossClient.BoxLaws
 import AcraModel.CrossClient.Box45
 import AcraModel.CrossClient.NoPanic
@@ -738,6 +739,131 @@ theorem tls_server_cross_client {c : CryptoOps} (hl : SealLaws c) (hc : SealComm
       rw [if_pos ⟨fact_every_registration_wrapped reg (regOf_mem hr), rfl⟩]
       exact tls_cross_client hl hc hm hp hs hab hown row (List.mem_of_find?_eq_some hw) forged
 
+/-! ## which certificate of a handshake is the identity of the connection (`network/tls_wrapper.go`) -/
+
+/-- **Every site that turns a `tls.ConnectionState` into the certificate of the connection's identity takes the
+leaf of the first VERIFIED chain.** In the whole source tree the two certificate lists of a connection state are
+read by two functions only – `TLSConnectionWrapper.ServerHandshake` (gRPC transport credentials) and
+`GetClientIDFromTLSConn` (WrapServer, i.e. AcraServer and the HTTP API, and `GetClientIDFromConnection` on a bare
+`*tls.Conn`) –, both read `VerifiedChains` only (never `PeerCertificates`, the list the peer controls), both
+take element `[0][0]` behind the guards `len(VerifiedChains) == 0 || len(VerifiedChains[0]) == 0`; the only other
+call of an identity sink hands the certificate parameter of `getClientIDFromCertificate` on, after validating it.
+Regenerated from the source on every run. -/
+theorem fact_identity_certificate_is_verified_leaf :
+    TlsConnState.connStateReads =
+      [(grpcSiteName, "len(VerifiedChains)"), (grpcSiteName, "len(VerifiedChains[0])"), (grpcSiteName, "VerifiedChains[0][0]"),
+       (connSiteName, "len(VerifiedChains)"), (connSiteName, "len(VerifiedChains[0])"), (connSiteName, "VerifiedChains[0][0]")] ∧
+    TlsConnState.identitySinks = ["ExtractClientID", "getClientIDFromCertificate"] ∧
+    (∀ st ∈ certSites,
+      (certChoiceOf st.origin = .verified 0 0 ∧ st.guards = [["len(VerifiedChains)==0", "len(VerifiedChains[0])==0"]]) ∨
+      (certChoiceOf st.origin = .param ∧ st.fn = "network/tls_wrapper.go:getClientIDFromCertificate")) ∧
+    stateSites.map (·.fn) = [grpcSiteName, connSiteName] ∧
+    grpcSite.callee = "wrapper.clientIDExtractor.ExtractClientID" ∧ connSite.callee = "getClientIDFromCertificate" ∧
+    helperValidates = true := by decide
+
+/-- **`connection_identity_is_leaf`.** After a handshake (`Handshaken`: the contract of crypto/tls) in which the
+client's own certificate – the first one it sent – is `l`, every site that derives the identity of the connection
+from the connection state runs its sink on `l`: whatever ELSE the peer appended to its certificate list
+(intermediates, a CA, another client's certificate) and whatever the rest of the verified chains looks like. -/
+theorem connection_identity_is_leaf (e : Extractor) {s : TlsState} (h : Handshaken s) {l : ConnCert} (hl : leafOf s = some l) :
+    ∀ st ∈ stateSites, siteIdentity st e s = sinkRun st.callee e l := by
+  intro st hst
+  have hmem : st ∈ certSites := (List.mem_filter.mp hst).1
+  have hnp : certChoiceOf st.origin ≠ .param := by
+    have := (List.mem_filter.mp hst).2
+    simpa using this
+  rcases fact_identity_certificate_is_verified_leaf.2.2.1 st hmem with ⟨ho, hg⟩ | ⟨hp, _⟩
+  · unfold siteIdentity
+    rw [siteCert_verified_leaf ho hg h hl]
+  · exact absurd hp hnp
+
+/-- the gRPC transport credentials: the id is the extractor's id of the client's own certificate -/
+theorem grpc_connection_identity (e : Extractor) {s : TlsState} (h : Handshaken s) {l : ConnCert} (hl : leafOf s = some l) :
+    siteIdentity grpcSite e s = extractClientID e.hash e.mode (some l.cert) := by
+  rw [connection_identity_is_leaf e h hl grpcSite (by decide)]
+  unfold sinkRun
+  rw [fact_identity_certificate_is_verified_leaf.2.2.2.2.1]
+  rfl
+
+/-- WrapServer / `GetClientIDFromTLSConn` (AcraServer, HTTP API): the same, after
+`ValidateClientsAuthenticationCertificate` (no CA certificate, an authentication key usage) -/
+theorem conn_connection_identity (e : Extractor) {s : TlsState} (h : Handshaken s) {l : ConnCert} (hl : leafOf s = some l) :
+    siteIdentity connSite e s = (if validateCert l then extractClientID e.hash e.mode (some l.cert) else .err) := by
+  rw [connection_identity_is_leaf e h hl connSite (by decide)]
+  unfold sinkRun
+  rw [fact_identity_certificate_is_verified_leaf.2.2.2.2.2.1, fact_identity_certificate_is_verified_leaf.2.2.2.2.2.2]
+  cases validateCert l <;> rfl
+
+/-- **Two clients behind the same intermediate CA get different ids.** Two handshakes whose clients' own
+certificates have different identifiers (distinguished name / serial number), whatever both appended – e.g. the
+SAME intermediate certificate –, through any two entry points: the client ids differ (unless SHA-512 collides on
+the two identifiers). -/
+theorem tls_chain_leaves_distinct_ids (e : Extractor) {s1 s2 : TlsState} (h1 : Handshaken s1) (h2 : Handshaken s2)
+    {l1 l2 : ConnCert} (hl1 : leafOf s1 = some l1) (hl2 : leafOf s2 = some l2) {i1 i2 : Bytes}
+    (hi1 : certIdentifier e.mode (some l1.cert) = .ok i1) (hi2 : certIdentifier e.mode (some l2.cert) = .ok i2) (hne : i1 ≠ i2)
+    (hnc : NoColl e.hash [i1, i2]) {a b : Bytes} :
+    ∀ st1 ∈ stateSites, ∀ st2 ∈ stateSites, siteIdentity st1 e s1 = .ok a → siteIdentity st2 e s2 = .ok b → a ≠ b := by
+  intro st1 hs1 st2 hs2 ha hb
+  rw [connection_identity_is_leaf e h1 hl1 st1 hs1] at ha
+  rw [connection_identity_is_leaf e h2 hl2 st2 hs2] at hb
+  exact tls_identity_injective_partial e.hash e.mode _ hnc hi1 hi2 (by simp) (by simp) hne (sinkRun_ok ha) (sinkRun_ok hb)
+
+/-- the identity of a connection does not depend on anything but the client's own certificate: two handshakes with
+the same first certificate get the same result at every site, whatever else was sent or verified -/
+theorem connection_identity_ignores_appended (e : Extractor) {s s' : TlsState} (h : Handshaken s) (h' : Handshaken s')
+    {l : ConnCert} (hl : leafOf s = some l) (hl' : leafOf s' = some l) :
+    ∀ st ∈ stateSites, siteIdentity st e s = siteIdentity st e s' := by
+  intro st hst
+  rw [connection_identity_is_leaf e h hl st hst, connection_identity_is_leaf e h' hl' st hst]
+
+/-- deriving the identity of a connection never panics, for ANY connection state (the guards in front of the
+indexing are the ones the indexing needs) -/
+theorem connection_identity_never_panics (e : Extractor) (s : TlsState) : ∀ st ∈ stateSites, siteIdentity st e s ≠ .panic := by
+  intro st hst
+  have hmem : st ∈ certSites := (List.mem_filter.mp hst).1
+  have hnp : certChoiceOf st.origin ≠ .param := by
+    have := (List.mem_filter.mp hst).2
+    simpa using this
+  rcases fact_identity_certificate_is_verified_leaf.2.2.1 st hmem with ⟨ho, hg⟩ | ⟨hp, _⟩
+  · have hsc : siteCert st s ≠ .panic := by
+      unfold siteCert
+      rw [hg, ho]
+      have := verified_guarded_never_panics s st.callee
+      unfold siteCert at this
+      simpa [certChoiceOf] using this
+    unfold siteIdentity
+    cases hc : siteCert st s with
+    | ok c =>
+      simp only []
+      unfold sinkRun
+      split
+      · split
+        · simp
+        · exact extractClientID_never_panics _ _ _
+      · exact extractClientID_never_panics _ _ _
+    | err => simp
+    | panic => exact absurd hc hsc
+  · exact absurd hp hnp
+
+/-- **End to end with certificate chains.** Two TLS clients whose own certificates have different identifiers
+connect to the gRPC server that `NewServer` builds (`UseConnectionClientID`); each sends its certificate followed
+by anything it likes (the same intermediate CA, the OTHER client's certificate, …). The connections get the ids
+`a` and `b` from the transport credentials. A decrypt request over B's connection naming ANY client id is an
+error for every stored value A can decrypt. -/
+theorem tls_server_cross_client_chain {c : CryptoOps} (hl : SealLaws c) (hc : SealCommit c) (hm : MsgCommit c)
+    {pairs syms : History} (hp : Fresh pairs) (hs : Fresh syms) (e : Extractor)
+    {sA sB : TlsState} (hA : Handshaken sA) (hB : Handshaken sB) {lA lB : ConnCert} (hlA : leafOf sA = some lA) (hlB : leafOf sB = some lB)
+    {ia ib a b : Bytes} (hia : certIdentifier e.mode (some lA.cert) = .ok ia) (hib : certIdentifier e.mode (some lB.cert) = .ok ib)
+    (hne : ia ≠ ib) (hnc : NoColl e.hash [ia, ib])
+    (ha : siteIdentity grpcSite e sA = .ok a) (hb : siteIdentity grpcSite e sB = .ok b)
+    {k : Kind} {v m : Bytes} (hown : decryptAs c (storeOf c pairs syms) a k v = .ok m) :
+    ∀ (rpc : String) (forged : Bytes),
+      serverCall true rpc (fun r => decryptAs c (storeOf c pairs syms) r.clientId k r.payload) .err (some b) ⟨forged, v⟩ = .err := by
+  rw [grpc_connection_identity e hA hlA] at ha
+  rw [grpc_connection_identity e hB hlB] at hb
+  exact tls_server_cross_client hl hc hm hp hs e hia hib hne hnc [some lA.cert, some lB.cert] 0 1 rfl rfl
+    (by rw [Extractor.run_eq_map]; simp [ha]) (by rw [Extractor.run_eq_map]; simp [hb]) hown
+
 /-! ## non-vacuity
 
 The hypotheses of the theorems above are jointly satisfiable by concrete, non-trivial instances:
@@ -905,6 +1031,45 @@ example : dnString exNameA = [67, 78, 61, 98, 105, 108, 108, 44, 79, 85, 61, 112
     certIdentifier .distinguishedName (some ⟨⟨[], [], [], [], [], [], [], [], []⟩, 5⟩) = .err :=
   ⟨by decide, by decide, by intro x hx y hy h; exact h, by decide, by decide, by decide, by decide,
    ⟨_, _, rfl, by decide⟩, ⟨_, _, rfl, by decide⟩, ⟨_, _, rfl, by decide⟩, by decide⟩
+
+/-- certificate chains: two clients behind ONE intermediate CA (the server trusts the root only). A sends
+`leaf, intermediate`; B sends `leaf, intermediate` and appends A's certificate. Both states satisfy the crypto/tls
+contract; through both entry points A and B get different ids, B's id does not depend on what it appended; a
+connection whose own certificate is a CA certificate is refused where `getClientIDFromCertificate` validates. -/
+def exInterName : Name := ⟨[], [], [], [], [], [[69, 120]], [], [105, 110, 116], []⟩      -- O=Ex, CN=int
+def exInter : ConnCert := ⟨⟨exInterName, 7⟩, true, true⟩
+def exRootCert : ConnCert := ⟨⟨{ exInterName with commonName := [114] }, 1⟩, true, true⟩
+def exLeafA : ConnCert := ⟨exCertA, false, true⟩
+def exLeafB : ConnCert := ⟨exCertB, false, true⟩
+def exStateA : TlsState := ⟨[exLeafA, exInter], [[exLeafA, exInter, exRootCert]]⟩
+def exStateB : TlsState := ⟨[exLeafB, exInter, exLeafA], [[exLeafB, exInter, exRootCert]]⟩
+def exStateB' : TlsState := ⟨[exLeafB, exInter], [[exLeafB, exInter, exRootCert]]⟩
+def exStateCA : TlsState := ⟨[exInter], [[exInter, exRootCert]]⟩
+
+example : Handshaken exStateA ∧ Handshaken exStateB ∧ Handshaken exStateB' ∧ leafOf exStateA = some exLeafA ∧ leafOf exStateB = some exLeafB :=
+  ⟨⟨by decide, by intro ch h; simp only [exStateA, List.mem_singleton] at h; subst h; exact ⟨rfl, by decide⟩⟩,
+   ⟨by decide, by intro ch h; simp only [exStateB, List.mem_singleton] at h; subst h; exact ⟨rfl, by decide⟩⟩,
+   ⟨by decide, by intro ch h; simp only [exStateB', List.mem_singleton] at h; subst h; exact ⟨rfl, by decide⟩⟩, rfl, rfl⟩
+
+example :
+    (∃ a b, siteIdentity grpcSite (exExtractor .distinguishedName) exStateA = .ok a ∧
+      siteIdentity grpcSite (exExtractor .distinguishedName) exStateB = .ok b ∧
+      siteIdentity connSite (exExtractor .distinguishedName) exStateB = .ok b ∧
+      siteIdentity connSite (exExtractor .distinguishedName) exStateB' = .ok b ∧ a ≠ b) ∧
+    siteIdentity connSite (exExtractor .distinguishedName) exStateCA = .err ∧
+    siteIdentity grpcSite (exExtractor .serialNumber) ⟨[], []⟩ = .err ∧
+    siteIdentity connSite (exExtractor .serialNumber) ⟨[exLeafA], [[]]⟩ = .err :=
+  ⟨⟨_, _, rfl, rfl, rfl, rfl, by decide⟩, by decide, by decide, by decide⟩
+
+/-- the regenerated fact is load-bearing: a site that took the LAST certificate the peer sent would give A and B –
+two clients behind the same intermediate – the intermediate's id, and would serve B under A's id as soon as B
+appends A's (public) certificate to what it sends -/
+def exBadSite : CertSite := ⟨"", "wrapper.clientIDExtractor.ExtractClientID", ["PeerCertificates[len(PeerCertificates)-1]"],
+  [["len(VerifiedChains)==0", "len(PeerCertificates)==0"]]⟩
+
+example : siteIdentity exBadSite (exExtractor .distinguishedName) exStateA = siteIdentity exBadSite (exExtractor .distinguishedName) exStateB' ∧
+    siteIdentity exBadSite (exExtractor .distinguishedName) exStateB = siteIdentity grpcSite (exExtractor .distinguishedName) exStateA ∧
+    (siteIdentity exBadSite (exExtractor .distinguishedName) exStateA).isOk = true := by decide
 
 /-- the registration table is inhabited; the server ignores a forged id on a concrete RPC of every service -/
 example : registrations.length = 6 ∧
